@@ -1,5 +1,6 @@
 """C16: real S3TapeCassette over the fake bucket with a fake clock."""
 import datetime
+import logging
 import random
 
 import fake_s3
@@ -42,9 +43,34 @@ def populated(times, tags, prefix):
     return cas, ids
 
 
+class _Formatting(logging.Handler):
+    """what any real handler does with a record: format it (the text goes nowhere)"""
+    def emit(self, record):
+        self.format(record)
+
+
 def run_c16(case):
     times = case['times']
     cas, ids = populated(times, case.get('tags') or [0] * len(times), case.get('prefix', ''))
+    if not case.get('log'):
+        return lookup(case, cas, ids)
+    # the same lookup in a process whose logging is switched on (root logger at the given level, a handler that formats
+    # every record): driver_common disables logging globally, so it is re-enabled for the duration of this case
+    root = logging.getLogger()
+    handler = _Formatting()
+    before = (root.level, logging.root.manager.disable)
+    root.addHandler(handler)
+    root.setLevel(getattr(logging, case['log']))
+    logging.disable(logging.NOTSET)
+    try:
+        return lookup(case, cas, ids)
+    finally:
+        root.removeHandler(handler)
+        root.setLevel(before[0])
+        logging.disable(before[1])
+
+
+def lookup(case, cas, ids):
     fake_s3.CLOCK.set(at(case['now']))
     end = None if case['end'] is None else at(case['end'])
     flt = None if case.get('filter') is None else {'g': case['filter']}
